@@ -27,7 +27,8 @@ def obligations():
             o.append(Obl(f"C14.triplets.ew{int(ew)}.sc{int(sc)}", "xh", "harness.c14_py", "bond_triplets", ["mdtraj.geometry.hbond._get_bond_triplets"],
                          "5 atoms in 2 residues; elements, bonds, water flag, naming symbolic", "exactly the bonded N-H/O-H donors x N/O acceptors passing the filters, donor != acceptor, donor before hydrogen", 900,
                          pre=f"exclude_water == {ew} and sidechain_only == {sc}",
-                         quick_pre="e0 <= 1 and 1 <= e1 <= 2 and 2 <= e2 <= 3 and e3 == 3 and e4 <= 1 and b3 and b4 and not b5", timeout_thorough=3600))
+                         quick_pre="e0 <= 1 and 1 <= e1 <= 2 and 2 <= e2 <= 3 and e3 == 3 and e4 <= 1 and b3 and b4 and not b5",
+                         thorough_pre="e0 <= 2 and 1 <= e1 <= 2 and 2 <= e2 <= 3 and e3 == 3 and e4 <= 1 and not b5", timeout_thorough=3000))
     H = "harness.c14"
     bh = ["mdtraj.geometry.hbond.baker_hubbard", "mdtraj.geometry.hbond._compute_bounded_geometry"]
     o += [
